@@ -464,3 +464,50 @@ Example factorize_mod_2_terminates_nonvacuous :
   Z.of_nat (length [3; -1; 1; 5; 1; 7; 1]) <= two64 /\ poly_mod [3; -1; 1; 5; 1; 7; 1] 2 = Done [1; 1; 1; 1; 1; 1; 1] /\
   factorize_mod_p Checked [3; -1; 1; 5; 1; 7; 1] 2 2 (rng_of []) = Done ([([1; 1; 0; 1], 1); ([1; 0; 1; 1], 1)], rng_of []).
 Proof. split; [vm_compute; discriminate|]. split; vm_compute; reflexivity. Qed.
+
+(** ** Seventh wave: the recursion-depth fuel of the odd-p equal-degree stage never runs out.
+
+    [final_split_odd fuel poly p d result r] (Cantor-Zassenhaus) threads two fuels: [fuel] bounds the recursion depth
+    ([final_split] supplies [length poly + 1]); every call runs its own retry loop of [split_retries] = 400 drawn
+    polynomials, and every coefficient draw has the rejection-sampling fuel [draw_fuel].  All exhaustions surface as the
+    same [OutOfFuel].  The theorems: for p prime and a reduced non-zero input the outcome (value, panic or [OutOfFuel],
+    and the draw stream left) is the same for EVERY depth fuel >= [length poly] (both pieces of a split are shorter than
+    the input, the degree argument of the p = 2 case), for every d, every draw stream and every accumulated result.
+    Hence an [OutOfFuel] of [final_split] for odd p persists under every larger depth fuel: it comes from a retry loop
+    (or a draw), never from the depth. *)
+From RNT.Refine Require W7MiscSplitFuel.
+
+(** [P] [final_split_odd_depth_fuel_irrelevant] *)
+Theorem final_split_odd_depth_fuel_irrelevant : forall p poly d result r f1 f2,
+  prime p -> canonical poly -> in_range p poly -> poly <> [] ->
+  (length poly <= f1)%nat -> (length poly <= f2)%nat ->
+  final_split_odd f1 poly p d result r = final_split_odd f2 poly p d result r.
+Proof. exact W7MiscSplitFuel.final_split_odd_depth_fuel_list. Qed.
+
+(** [P] for odd p, [final_split] is [final_split_odd] with any depth fuel >= the supplied one *)
+Theorem final_split_depth_fuel_irrelevant : forall p poly d r fuel,
+  prime p -> Z.odd p = true -> canonical poly -> in_range p poly -> poly <> [] ->
+  (length poly + 1 <= fuel)%nat ->
+  final_split poly p d r = final_split_odd fuel poly p d [] r.
+Proof. exact W7MiscSplitFuel.final_split_depth_fuel_list. Qed.
+
+(** [P] [final_split_out_of_fuel_not_depth]: an [OutOfFuel] of the odd-p stage is not due to the depth fuel *)
+Theorem final_split_out_of_fuel_not_depth : forall p poly d r,
+  prime p -> Z.odd p = true -> canonical poly -> in_range p poly -> poly <> [] ->
+  final_split poly p d r = OutOfFuel ->
+  forall fuel, (length poly + 1 <= fuel)%nat -> final_split_odd fuel poly p d [] r = OutOfFuel.
+Proof. exact W7MiscSplitFuel.final_split_oof_not_depth_list. Qed.
+
+(** x^4 + 1 = (x^2 + 3)(x^2 + 2) modulo 5, d = 2: with the draws of [factorize_mod_p_product_nonvacuous] the stage splits into 4 x^2 + 3 and 4 x^2 + 2
+    (one level of recursion); on the exhausted stream every drawn polynomial is 0, the 400 attempts of the retry loop
+    fail and the outcome is [OutOfFuel] -- with the supplied depth fuel 6 and with depth fuel 50 alike. *)
+Example final_split_depth_fuel_nonvacuous :
+  let f := [1; 0; 0; 0; 1] in
+  prime 5 /\ Z.odd 5 = true /\ canonical f /\ in_range 5 f /\
+  (exists r', final_split f 5 2 (rng_of [0; 0; 0; 64; 0; 0; 0; 64; 0; 0; 0; 0; 0; 0; 0; 0]) = Done ([[4; 0; 3]; [4; 0; 2]], r')) /\
+  final_split f 5 2 (rng_of []) = OutOfFuel /\
+  final_split_odd 50 f 5 2 [] (rng_of []) = OutOfFuel.
+Proof.
+  split; [exact prime_5|]. split; [reflexivity|]. split; [reflexivity|].
+  split; [repeat constructor; lia|]. split; [eexists; vm_compute; reflexivity|]. split; vm_compute; reflexivity.
+Qed.
